@@ -4,7 +4,9 @@ from harness.gen_tree import Gen as TreeGen
 STEMS = ['a', 'b', 'a1', 'x', 'data', 'img']
 EXTS = ['', '', '.txt', '.txt', '.png', '.gz', '.tar.gz', '.', '.d']
 FILTERS = [[], [], ['.txt'], ['.png', '.txt'], ['.gz'], ['.d'], ['.txt', '.']]
-ARGS = ['-', '-', 'a', 'a.b', '|k=v', 'a|k=v.j=w']
+# L<n> D<n> U<n> G<n> K<n>: argument OBJECTS (a list, a dict, an object that cannot be copied, a generator, a
+# lock): the factory must be handed those very objects, whatever they are
+ARGS = ['-', '-', 'a', 'a.b', '|k=v', 'a|k=v.j=w', 'L0', 'a.D1', '|opt=U2', 'G3.L0', 'L0|same=L0', '|lock=K4', 'D1|d=D5']
 TOPS = ['r', 'img', 'snd.d']
 # the container type file_exts is passed in (documented: Iterable[str]) - one-shot iterables included
 CONTAINERS = ['list', 'list', 'tuple', 'set', 'frozenset', 'dictkeys', 'dict', 'gen', 'iter', 'map', 'reversed']
@@ -90,8 +92,33 @@ def gen_c16(rng):
     # keys that files will take (to aim pre-existing content and conflicts at them)
     keys = ['/'.join(f) for f in files] + ['/'.join(f[:-1] + [f[-1].rsplit('.', 1)[0] or f[-1]]) for f in files]
     unused = [f'h{k}' for k in range(nh)]
-    for _ in range(rng.randint(1, 4)):
+    last_pop = None
+    for step in range(rng.randint(1, 4)):
         r = rng.random()
+        # the tree changes between two populations (deep in it: the directories above keep their mtime)
+        if step > 0 and rng.random() < 0.45:
+            for _ in range(rng.randint(1, 2)):
+                deep = [d for d in dirs if len(d) >= 2] or dirs
+                q = rng.random()
+                if q < 0.55 or not files:
+                    parent = rng.choice(deep)
+                    cs = parent + [rng.choice(STEMS) + rng.choice(['.txt', '.png', '.gz', '']) + 'n']
+                    if cs not in files and cs not in dirs and len(cs) <= 4:
+                        files.append(cs)
+                        lines.append('fs file :' + '/'.join(cs))
+                elif q < 0.7:
+                    parent = rng.choice(deep)
+                    cs = parent + [rng.choice(STEMS) + 'd']
+                    if cs not in files and cs not in dirs and len(cs) <= 3:
+                        dirs.append(cs)
+                        lines.append('fs dir :' + '/'.join(cs))
+                else:
+                    victims = [f for f in files if len(f) >= 3] + [d for d in dirs if len(d) >= 3]
+                    if victims:
+                        v = rng.choice(victims)
+                        dirs[:] = [d for d in dirs if d[:len(v)] != v]
+                        files[:] = [f for f in files if f[:len(v)] != v]
+                        lines.append('fs rm :' + '/'.join(v))
         if r < 0.2 and unused and keys:
             lines.append(f'op set m0 :{rng.choice(keys)} {unused.pop()}')
         elif r < 0.25:
@@ -100,7 +127,10 @@ def gen_c16(rng):
             lines.append('op clear m0')
         flag = lambda: rng.choice(['N', 'N', 'N', '0', '1'])   # noqa
         m = f'm{rng.randrange(nmaps)}' if rng.random() < 0.2 else 'm0'
-        lines.append(f'op populate p{rng.randrange(npops)} {m} nest={flag()} trim={flag()} '
+        # the same populator object again, more often than not (it must look at the tree afresh every time)
+        pop = last_pop if last_pop is not None and rng.random() < 0.65 else rng.randrange(npops)
+        last_pop = pop
+        lines.append(f'op populate p{pop} {m} nest={flag()} trim={flag()} '
                      f'root={rng.choice(["0", "0", "0", "1"] + SPELLINGS)}')
         lines.append(f'op dump {m}')
         if rng.random() < 0.3:
